@@ -686,6 +686,7 @@ func introType(m map[string]interface{}) *model.TypeRef {
 }
 
 func runC17(c *run.Ctx) {
+	defer c17BuiltinDirectiveRedefined(c)
 	c.Rule = "generated schemas (every kind, wrappers to depth 4, deprecations with and without reason on fields - also interface fields - and enum values, descriptions, defaults, directives with locations and " +
 		"arguments, 1-3 root operation types, custom root names); oracle: (a) the standard full introspection query (ofType x7) with includeDeprecated true and false is compared member by member with the " +
 		"model (lists keyed by name), (b) generated introspection documents (random sub-selections, aliases, fragments, includeDeprecated literal/variable/default, __type by literal and variable, unknown names) " +
@@ -867,6 +868,59 @@ func runC17(c *run.Ctx) {
 						"reflect": first.Describe(), bk: out.Describe()})
 					break
 				}
+			}
+		}
+	}
+}
+
+// c17BuiltinDirectiveRedefined: a document that spells out one of ggql's built-in directives in its own way. ggql may
+// refuse it (it does: a duplicate); if it is ever ACCEPTED, the schema introspection describes is the one of the
+// document - its description, locations and defaults for that directive, and the document's default reason where a use
+// of @deprecated gives none.
+func c17BuiltinDirectiveRedefined(c *run.Ctx) {
+	docs := []struct{ dir, desc, location, defArg, defVal string }{
+		{"deprecated", "the document's own deprecated", "ARGUMENT_DEFINITION", "reason", "gone for good"},
+		{"skip", "the document's own skip", "FRAGMENT_DEFINITION", "if", ""},
+		{"include", "the document's own include", "QUERY", "if", ""},
+	}
+	for di, d := range docs {
+		for _, bk := range []string{"reflect", "iface", "any"} {
+			def := fmt.Sprintf("%q\ndirective @%s(%s: %s) on FIELD_DEFINITION | ENUM_VALUE | FIELD | FRAGMENT_SPREAD | INLINE_FRAGMENT | %s\n", d.desc, d.dir,
+				d.defArg, map[bool]string{true: "String = " + fmt.Sprintf("%q", d.defVal), false: "Boolean!"}[d.defVal != ""], d.location)
+			sdl := "type Query { a: Int old: Int @deprecated }\n" + def
+			root, err := c17Load(sdl, bk)
+			c.Eval(fmt.Sprintf("builtin-directive-redefined|%d|%s", di, bk), true)
+			if err != nil {
+				c.Count("documents_redefining_a_builtin_directive_refused", 1)
+				continue
+			}
+			c.Count("documents_redefining_a_builtin_directive_accepted", 1)
+			res := root.ResolveString(`{ __schema { directives { name description locations args { name defaultValue } } } __type(name: "Query") { fields(includeDeprecated: true) { name deprecationReason } } }`, "", nil)
+			data, _ := res["data"].(map[string]interface{})
+			sch, _ := data["__schema"].(map[string]interface{})
+			dl, _ := sch["directives"].([]interface{})
+			diag := "the accepted document's directive is not listed"
+			for _, e := range dl {
+				em, _ := e.(map[string]interface{})
+				if em["name"] != d.dir {
+					continue
+				}
+				diag = ""
+				if em["description"] != d.desc {
+					diag = fmt.Sprintf("description %q, the document says %q", em["description"], d.desc)
+				}
+				if !strings.Contains(fmt.Sprint(em["locations"]), d.location) {
+					diag = fmt.Sprintf("locations %v lack the document's %s", em["locations"], d.location)
+				}
+				if d.defVal != "" && !strings.Contains(fmt.Sprint(em["args"]), d.defVal) {
+					diag = fmt.Sprintf("arguments %v lack the document's default %q", em["args"], d.defVal)
+				}
+			}
+			if diag == "" && d.dir == "deprecated" && !strings.Contains(fmt.Sprint(data["__type"]), d.defVal) {
+				diag = fmt.Sprintf("deprecationReason of a bare @deprecated is not the document's default: %v", data["__type"])
+			}
+			if diag != "" {
+				c.Violation("c17-builtin-directive-redefined", map[string]interface{}{"backend": bk, "sdl": sdl, "diag": diag, "response": fmt.Sprint(res)})
 			}
 		}
 	}
